@@ -45,13 +45,15 @@ let run (path : String.t) =
           incr idx;
           evs := CCall c :: !evs;
           (match action with
-           | "quick" | "hold" -> evs := CReply (Some id, c) :: !evs
+           | "toobig" -> decr idx; evs := List.tl !evs      (* never sent: no id taken, no call in the model *)
+           | "quick" | "hold" | "slow" -> evs := CReply (Some id, c) :: !evs
            | "twice" -> evs := CReply (Some id, c) :: CReply (Some id, c) :: !evs
            | "late" -> evs := CReply (Some id, c) :: CTimeout c :: !evs
            | "foreign" -> evs := CTimeout c :: CReply (Some (n_of_int 4000000), c) :: !evs
            | _ -> evs := CTimeout c :: !evs)) mine;
         let st_final = crun (List.rev !evs) in
-        List.iter (fun (_, k, _, _, res, _) ->
+        List.iter (fun (_, k, action, _, res, _) ->
+          if action <> "toobig" then
           let c = n_of_int (k + 1) in
           let model_ok = List.exists (fun (c', r) -> c' = c && (match r with ResOk (p, _) -> p = c | ResTimeout -> false)) st_final.c_done in
           let model_to = List.exists (fun (c', r) -> c' = c && r = ResTimeout) st_final.c_done in
@@ -60,7 +62,11 @@ let run (path : String.t) =
       List.iter (fun (_, _, action, payload, res, ms) ->
         Hashtbl.replace actions action (1 + try Hashtbl.find actions action with Not_found -> 0);
         Hashtbl.replace distinct (action ^ payload) ();
-        let expect_ok = (action = "quick" || action = "hold" || action = "twice") in
+        let expect_ok = (action = "quick" || action = "hold" || action = "twice" || action = "slow") in
+        if action = "toobig" then begin
+          (* a request too large to be sent fails locally: an error, never a reply, never a timeout *)
+          if not (String.length res > 4 && String.sub res 0 4 = "err:") then (prop := false; note ("a request too large to be sent returned " ^ res))
+        end else
         if String.length res > 3 && String.sub res 0 3 = "ok:" then begin
           incr oks;
           if res <> "ok:re:" ^ payload then (prop := false; note ("a call returned the reply to another request: " ^ payload ^ " got " ^ res));
